@@ -22,7 +22,7 @@ impl Property for Prop {
         "C20"
     }
     fn rule(&self) -> &'static str {
-        "lengths: key = payload length 0..=4000; for each: the four packet kinds x label kinds (6-byte, 3-byte, broadcast, re-use for start/complete) x seeded fragment id, protocol type >= 0x0600, total length, CRC; each well-formed description (GSE length consistent with its fields; intermediate payload >= 1 byte) is generated, compared byte for byte with the independent serialiser, parsed back (must equal the description), compared with what the encapsulator emits when driven to the same fields (complete packet; first fragment with the same split; intermediate / end from a context at the same position) and fed to the decapsulator (accepted with the same field values; first fragments are completed by a utils-generated end fragment on memories of 1, 3, 5 and 6 slots; one first fragment in eight carries the whole PDU so that the end fragment carries only the CRC; every other train has the receiver's label memory emptied between its fragments; every first-fragment description is also generated and parsed back with total lengths 4095, 4096, 4097, 0x1FFF, 0x8000, 0xFFFF and a random one). maxtotal: descriptions with total length 65530..=65535 for every label kind (18 packets each). ids: for EVERY fragment id X, two utils-generated trains in flight at once on X and a partner id (255 - X, X + 1, X + 128) on memories of 256, 255, 3 and 7 slots; one train's intermediate fragment carries all remaining bytes so that its end fragment carries only the CRC; both must be accepted and delivered with the same field values. Each of these comparisons is an evaluation; fingerprint = (kind, label kind, payload length)."
+        "lengths: key = payload length 0..=4000; for each: the four packet kinds x label kinds (6-byte, 3-byte, broadcast, re-use for start/complete) x seeded fragment id, protocol type >= 0x0600, total length, CRC; each well-formed description (GSE length consistent with its fields; intermediate payload >= 1 byte) is generated, compared byte for byte with the independent serialiser, parsed back (must equal the description), compared with what the encapsulator emits when driven to the same fields (complete packet; first fragment with the same split; intermediate / end from a context at the same position) and fed to the decapsulator (accepted with the same field values; first fragments are completed by a utils-generated end fragment on memories of 1, 3, 5 and 6 slots; one first fragment in eight carries the whole PDU so that the end fragment carries only the CRC; every other train has the receiver's label memory emptied between its fragments; every first-fragment description is also generated and parsed back with total lengths 4095, 4096, 4097, 0x1FFF, 0x8000, 0xFFFF and a random one). maxtotal: descriptions with total length 65530..=65535 for every label kind (18 packets each). the end-fragment comparison with the encapsulator is repeated with output buffers of 4097..131072 bytes; ids: after the first of the two trains is delivered, a generated complete packet with a re-use label must be attributed to the label of the last start packet; for EVERY fragment id X, two utils-generated trains in flight at once on X and a partner id (255 - X, X + 1, X + 128) on memories of 256, 255, 3 and 7 slots; one train's intermediate fragment carries all remaining bytes so that its end fragment carries only the CRC; both must be accepted and delivered with the same field values. Each of these comparisons is an evaluation; fingerprint = (kind, label kind, payload length)."
     }
     fn gens(&self, _cx: &Cx) -> Vec<Gen> {
         vec![Gen { name: "lengths", count: 4001, exhaustive: true }, Gen { name: "maxtotal", count: 24, exhaustive: true }, Gen { name: "ids", count: 256, exhaustive: true }]
@@ -90,6 +90,25 @@ impl Property for Prop {
                             }
                             if let Ok(Ok((DecapStatus::CompletedPkt(b, _), _))) = d {
                                 let _ = dec.provision_storage(b);
+                            }
+                            if step == 2 && ti == 0 {
+                                // train 0 (label A) has just been delivered; the last start packet seen carried train 1's
+                                // label B: a utils-generated complete packet with a re-use label belongs to B
+                                let cp = GseCompletePacket::new(2 + 4, 0x0800, Label::ReUse, b"pdu!");
+                                let mut cb = vec![0u8; 2 + 2 + 4];
+                                let _ = guard(|| cp.generate(&mut cb));
+                                rep.eval();
+                                let dr = dec_guard(&mut dec, &cb);
+                                match &dr {
+                                    Ok(Ok((DecapStatus::CompletedPkt(_, m), _))) if m.label() == trains[1].3 => {}
+                                    other => {
+                                        rep.violation("C20", "decap-differs:re-use-complete-after-delivery".into(), || format!("{}-slot memory, ids {} (label {}) and {} (label {}): after the first train was delivered, a generated complete packet with a re-use label -> {} (the preceding start packet carried {})", slots, x, label_str(&trains[0].3), partner, label_str(&trains[1].3), dec_res_str(other), label_str(&trains[1].3)), &replay);
+                                        return;
+                                    }
+                                }
+                                if let Ok(Ok((DecapStatus::CompletedPkt(b, _), _))) = dr {
+                                    let _ = dec.provision_storage(b);
+                                }
                             }
                         }
                     }
@@ -383,6 +402,20 @@ impl Property for Prop {
                         rep.nontrivial(mix(4, n as u64));
                     }
                     o => rep.violation("C20", "encap-differs:end".into(), || format!("encap_frag(pdu {}B, pos {}, buffer {}B) = {:?} bytes {}, utils generate {}", pdu.len(), pre, eb.len(), o.map(|x| format!("{:?}", x)), hex_short(&eb, 40), hex_short(&buf, 40)), &replay),
+                }
+                // the same end packet when the caller offers far more room than needed (a whole frame, 64 KiB and more)
+                if n % 16 == 3 {
+                    for room in [4097usize, 4098, 65535, 65536, 65537, 70000, 131072] {
+                        let mut eb = vec![0u8; room];
+                        rep.eval();
+                        match guard(|| enc.encap_frag(&pdu, &ctx, &mut eb)) {
+                            Ok(Ok(EncapStatus::CompletedPkt(m))) if m as usize == buf.len() && eb[..buf.len()] == buf[..] => {}
+                            o => {
+                                rep.violation("C20", "encap-differs:end:large-buffer".into(), || format!("encap_frag(pdu {}B, pos {}, buffer {}B) = {:?}, utils generate {} ({} bytes)", pdu.len(), pre, room, o.map(|x| format!("{:?}", x)), hex_short(&buf, 24), buf.len()), &replay);
+                                break;
+                            }
+                        }
+                    }
                 }
             }
             rep.count("c20.end");
